@@ -116,6 +116,7 @@ CellsUnsound == CellsSound \cup {<<TRUE, TRUE>>}
 AllKinds == {"none", "bare", "named", "reexp", "star", "require", "dynamic"}
 StaticKinds == {"none", "bare", "named", "reexp"}
 QuickKinds == {"none", "bare", "named", "reexp", "dynamic"}
+TinyKinds == {"none", "bare", "named"}
 AnnotNonEntry == SUBSET (2..N)
 AnnotNone == {{}}
 AllUses == {"none", "own", "imports"}
